@@ -218,9 +218,8 @@ def run(ck):
                 real_cmds = re.findall(r'[MmLlCcSsQqTtAaZz]', d)
                 model_cmds = [g['c'] for g in c['emit'][oi]]
                 if real_cmds != model_cmds:
-                    ck.disagree(key='Path.d/commands-differ-from-PathD.Emit', site='svgpathtools/path.py:Path.d',
-                                what='d(%s) writes the commands %s, the model of the serialiser %s: %r' % (o, ''.join(real_cmds), ''.join(model_cmds), d),
-                                case={'path': abstract, 'opts': o}, expected=model_cmds, observed=real_cmds, driver='model-emit')
+                    # another choice of commands can mean the same path (the round trip above decides that): the serialiser model no longer describes the code
+                    ck.drift('Path.d/commands-differ-from-PathD.Emit', 'd(%s) writes the commands %s, the model of the serialiser %s: %r' % (o, ''.join(real_cmds), ''.join(model_cmds), d))
             # (ii) the model serialiser's output through the real parser
             text = pm.render(c['emit'][oi], rnd, 'plain')
             try:
